@@ -496,7 +496,25 @@ func runC14(c *Ctx) {
 			{mkV7, []Guard{flag(fEnableOA, false), flag(fEnableSP, true)}},
 			{mkV6, []Guard{flag(fEnableOA, false), flag(fEnableSP, false)}},
 		} {
-			c.MustGuard(MustGuardSpec{Rule: "R14.3", Fn: create, Effects: asInstrs(CallsTo(create, false, w.f)), EffName: w.f.Name(), Guards: w.gs})
+			// after the C16 repair (R16.9) a catchpoint whose first stage ran before the online-accounts switch
+			// is labelled V7/V6 although the flag is set at the catchpoint round: the false side of a test
+			// derived from IsZero() of the first-stage record's online hashes legitimately skips the flag guard
+			firstStageNoOnline := GBool("first stage recorded online hashes == false", func(v ssa.Value) bool {
+				found := false
+				walkDef(v, 6, func(x ssa.Value) bool {
+					if z, ok := x.(*ssa.Call); ok {
+						if cal := calleeOf(z.Common()); cal != nil && cal.Name() == "IsZero" {
+							a := callArgs(z.Common())
+							if len(a) == 1 && (Mentions(a[0], c.Field("ledger/store/trackerdb.CatchpointFirstStageInfo.OnlineAccountsHash"), 4) || Mentions(a[0], c.Field("ledger/store/trackerdb.CatchpointFirstStageInfo.OnlineRoundParamsHash"), 4)) {
+								found = true
+							}
+						}
+					}
+					return !found
+				})
+				return found
+			}, false)
+			c.MustGuard(MustGuardSpec{Rule: "R14.3", Fn: create, Effects: asInstrs(CallsTo(create, false, w.f)), EffName: w.f.Name(), Guards: w.gs, Bypass: []Guard{firstStageNoOnline}})
 		}
 		// verifier
 		ver := c.Fn("ledger.catchpointCatchupAccessorImpl.VerifyCatchpoint")
